@@ -22,6 +22,8 @@ async def party_main(world, p, prog, case):
     rt = p.rt
     m = len(rt.parties)
     s = prog['sender'] % m
+    for td in prog.get('pretypes', ()):
+        make_type(rt, td)      # secure types the program defines up front (before any value exists)
     T0 = make_type(rt, prog['steps'][0])
     vals = prog['values'] if rt.pid == s else prog['dummy']
     as_scalar = bool(prog.get('scalar')) and len(vals) == 1
